@@ -7,7 +7,7 @@ fn flag(tag: &str, name: &str) -> bool {
     tag.split(':').any(|p| p == format!("{name}=1"))
 }
 
-/// Scalar universe: `i:Int s:Bytes ip:Ip t,u,v,w,x:Bool` (C01).
+/// Scalar universe: `i:Int s:Bytes ip:Ip t,u,v,w,x,y:Bool` (C01).
 pub fn scalar(optional: bool, nil_ne: bool) -> (String, Uni) {
     let tag = format!("scalar:opt={}:nilne={}", optional as u8, nil_ne as u8);
     let fields: Vec<(&str, Ty, bool)> = vec![
@@ -19,6 +19,7 @@ pub fn scalar(optional: bool, nil_ne: bool) -> (String, Uni) {
         ("v", Ty::Bool, optional),
         ("w", Ty::Bool, optional),
         ("x", Ty::Bool, optional),
+        ("y", Ty::Bool, optional),
     ];
     (tag, Uni::new(&fields, &[], nil_ne))
 }
